@@ -10,7 +10,14 @@
                the bystander's registrations are what they were; a hostile connection that
                has come and gone leaves every producer entry of the registry and the /lookup
                producers unchanged; a well-behaved command of one connection changes nothing
-               of the others; an HTTP request answered 4xx changed nothing
+               of the others; an HTTP request that is not answered 200, or is not a POST on
+               one of the five admin routes, changes nothing at all; the admin requests change
+               nothing but what they name: create adds at most the named keys and leaves every
+               producer entry, tombstone flag and /lookup producer alone (also when the name is
+               already registered by somebody); delete removes entries of the named topic /
+               channel only and never adds or alters one; tombstone turns flags on, only for
+               the named topic, only for connections whose broadcast_address:http_port is the
+               named node, and removes nothing
    No proofs here. *)
 From Coq Require Import List NArith ZArith Bool String.
 From NSQV Require Import model.Judge model.Names model.Lookupd model.LookupProto judge.J14.
@@ -29,7 +36,8 @@ Record view := mkView {
   v_lookup : option (list name * list peer);    (* /lookup?topic=<the bystander's topic> *)
   v_topics : list name;                         (* /topics *)
   v_chans : list name;                          (* /channels with the wildcard topic: every channel key *)
-  v_debug : list (reg * peer * bool)            (* /debug *)
+  v_debug : list (reg * peer * bool);           (* /debug *)
+  v_nodes : list (peer * name)                  (* /debug: broadcast_address:http_port of every connection that has entries *)
 }.
 
 Record act := mkAct {
@@ -66,7 +74,8 @@ Definition view_agrees (s : state) (topic : name) (v : view) : bool :=
   lookup_eqb (v_lookup v) (q_lookup inactive_default lifetime_default s topic)
   && mseq bytes_eqb (v_topics v) (q_topics s)
   && mseq bytes_eqb (v_chans v) (q_channels s star)
-  && mseq debug_eqb (v_debug v) (q_debug s).
+  && mseq debug_eqb (v_debug v) (q_debug s)
+  && forallb (fun e => node_matches s (snd e) (fst e)) (v_nodes v).
 
 Definition status_agrees (h : hstatus) (n : N) : bool :=
   match h with
@@ -119,11 +128,13 @@ Definition my_channels (p : peer) (v : view) : list name :=
 Definition listed (p : peer) (v : view) : bool :=
   match v_lookup v with Some (_, ps) => existsb (N.eqb p) ps | None => false end.
 
+Definition node_eqb : peer * name -> peer * name -> bool := pair_eqb N.eqb bytes_eqb.
 Definition view_same (a b : view) : bool :=
   lookup_eqb (v_lookup a) (v_lookup b) && mseq bytes_eqb (v_topics a) (v_topics b)
-  && mseq bytes_eqb (v_chans a) (v_chans b) && mseq debug_eqb (v_debug a) (v_debug b).
+  && mseq bytes_eqb (v_chans a) (v_chans b) && mseq debug_eqb (v_debug a) (v_debug b)
+  && mseq node_eqb (v_nodes a) (v_nodes b).
 
-Definition empty_view : view := mkView None [] [] [].
+Definition empty_view : view := mkView None [] [] [] [].
 
 (* everything in the registry that is NOT connection p's, and the producers /lookup lists *)
 Definition others (p : peer) (v : view) : list (reg * peer * bool) :=
@@ -146,7 +157,96 @@ Definition op_closes (o : op) (r : out) : bool :=
   | _, _ => false
   end.
 
-Fixpoint mon_acts (by_ : peer) (prev : view) (l : list act) : bool :=
+(* ---- HTTP: what a request may change, on the views before and after it.  Only a POST on
+   one of the five admin routes that is answered 200 may change anything, and then only
+   what it names. *)
+Inductive admin := KCreateT | KDeleteT | KCreateC | KDeleteC | KTomb.
+Definition admin_of (m path : string) : option admin :=
+  if negb (String.eqb m "POST") then None
+  else if String.eqb path "/topic/create" then Some KCreateT
+  else if String.eqb path "/topic/delete" then Some KDeleteT
+  else if String.eqb path "/channel/create" then Some KCreateC
+  else if String.eqb path "/channel/delete" then Some KDeleteC
+  else if String.eqb path "/topic/tombstone" then Some KTomb
+  else None.
+
+(* multisets of names: [new] is [old] plus at most the names of [extra] *)
+Definition grows_by (old new extra : list name) : bool :=
+  forallb (fun x => Nat.leb (count bytes_eqb x old) (count bytes_eqb x new)
+                    && Nat.leb (count bytes_eqb x new) (count bytes_eqb x old + count bytes_eqb x extra))
+          (old ++ new).
+Definition within (new old : list name) : bool :=
+  forallb (fun x => Nat.leb (count bytes_eqb x new) (count bytes_eqb x old)) new.
+
+Definition found (v : view) : bool := match v_lookup v with Some _ => true | None => false end.
+Definition lookup_chans (v : view) : list name := match v_lookup v with Some (chs, _) => chs | None => [] end.
+(* the entries of /debug outside the keys selected by [hit] *)
+Definition but (hit : reg -> bool) (v : view) : list (reg * peer * bool) :=
+  filter (fun e => negb (hit (fst (fst e)))) (v_debug v).
+Definition node_is (v : view) (p : peer) (node : name) : bool :=
+  existsb (fun e => N.eqb (fst e) p && bytes_eqb (snd e) node) (v_nodes v).
+
+(* every producer entry (tombstone flags included), every /lookup producer and every
+   connection's node string is what it was *)
+Definition keeps_entries (v prev : view) : bool :=
+  mseq debug_eqb (v_debug v) (v_debug prev) && mseq N.eqb (producers v) (producers prev)
+  && mseq node_eqb (v_nodes v) (v_nodes prev).
+
+Definition mon_admin (watched : name) (a : admin) (q : query) (v prev : view) : bool :=
+  match a, q with
+  | KCreateT, QArgs (Some t) _ _ =>
+      keeps_entries v prev
+      && grows_by (v_topics prev) (v_topics v) [t]
+      && mseq bytes_eqb (v_chans v) (v_chans prev)
+      && (negb (found prev) || found v) && (negb (found v) || found prev || bytes_eqb t watched)
+      && mseq bytes_eqb (lookup_chans v) (lookup_chans prev)
+  | KCreateC, QArgs (Some t) (Some c) _ =>
+      keeps_entries v prev
+      && grows_by (v_topics prev) (v_topics v) [t]
+      && grows_by (v_chans prev) (v_chans v) [c]
+      && (negb (found prev) || found v) && (negb (found v) || found prev || bytes_eqb t watched)
+      && grows_by (lookup_chans prev) (lookup_chans v) (if bytes_eqb t watched then [c] else [])
+  | KDeleteT, QArgs (Some t) _ _ =>
+      let hit k := bytes_eqb (r_key k) t && negb (cat_eqb (r_cat k) CClient) in
+      mseq debug_eqb (but hit v) (but hit prev)
+      && subset debug_eqb (v_debug v) (v_debug prev)                (* nothing new, no flag altered *)
+      && grows_by (v_topics v) (v_topics prev) [t]
+      && within (v_chans v) (v_chans prev)
+      && mseq node_eqb (v_nodes v) (v_nodes prev)                   (* the client entries stay *)
+      && (if bytes_eqb t watched then subset N.eqb (producers v) (producers prev)
+          else lookup_eqb (v_lookup v) (v_lookup prev))
+  | KDeleteC, QArgs (Some t) (Some c) _ =>
+      let hit k := reg_eqb k (chan_key t c) in
+      mseq debug_eqb (but hit v) (but hit prev)
+      && subset debug_eqb (v_debug v) (v_debug prev)
+      && mseq bytes_eqb (v_topics v) (v_topics prev)
+      && grows_by (v_chans v) (v_chans prev) [c]
+      && mseq node_eqb (v_nodes v) (v_nodes prev)
+      && mseq N.eqb (producers v) (producers prev) && Bool.eqb (found v) (found prev)
+      && grows_by (lookup_chans v) (lookup_chans prev) (if bytes_eqb t watched then [c] else [])
+  | KTomb, QArgs (Some t) _ (Some node) =>
+      let hit k := reg_eqb k (topic_key t) in
+      mseq (pair_eqb reg_eqb N.eqb) (map fst (v_debug v)) (map fst (v_debug prev))    (* nothing removed, nothing added *)
+      && mseq debug_eqb (but hit v) (but hit prev)
+      && forallb (fun e => existsb (debug_eqb e) (v_debug prev)                       (* as it was, or *)
+                           || (snd e && node_is prev (snd (fst e)) node))             (* marked, and it is the named node *)
+                 (v_debug v)
+      && mseq bytes_eqb (v_topics v) (v_topics prev) && mseq bytes_eqb (v_chans v) (v_chans prev)
+      && mseq node_eqb (v_nodes v) (v_nodes prev)
+      && Bool.eqb (found v) (found prev) && mseq bytes_eqb (lookup_chans v) (lookup_chans prev)
+      && (if bytes_eqb t watched then subset N.eqb (producers v) (producers prev)
+          else mseq N.eqb (producers v) (producers prev))
+  | _, _ => view_same v prev         (* an argument the handler needs is missing or the query does not parse *)
+  end.
+
+Definition mon_http (watched : name) (m path : string) (q : query) (n : N) (v prev : view) : bool :=
+  (N.eqb n 200 || view_same v prev)
+  && match admin_of m path with
+     | None => view_same v prev
+     | Some a => mon_admin watched a q v prev
+     end.
+
+Fixpoint mon_acts (watched : name) (by_ : peer) (prev : view) (l : list act) : bool :=
   match l with
   | [] => true
   | a :: r =>
@@ -169,10 +269,10 @@ Fixpoint mon_acts (by_ : peer) (prev : view) (l : list act) : bool :=
                   | None => false
                   end)
            && match mine p v with [] => true | _ => false end         (* the closed connection left nothing *)
-       | AHttp _ _ _, RHttp n =>
+       | AHttp m path q, RHttp n =>
            negb (N.eqb n 0)
            && match a_expect_status a with Some e => N.eqb n e | None => true end
-           && (if (400 <=? n)%N && (n <? 500)%N then view_same v prev else true)
+           && mon_http watched m path q n v prev
        | AOp o, ROp out =>
            (* a well-behaved command on connection q (the bystander's or the visitor's, which
               stays open): nothing that is not q's changes; a connection that ended left nothing *)
@@ -185,7 +285,7 @@ Fixpoint mon_acts (by_ : peer) (prev : view) (l : list act) : bool :=
            end
        | _, _ => false
        end)
-      && mon_acts by_ v r
+      && mon_acts watched by_ v r
   end.
 
 (* ---- the wire form (names as indices into one table, see J14) *)
@@ -198,7 +298,8 @@ Record iview := imkView {
   iv_lookup : option (list N * list peer);
   iv_topics : list N;
   iv_chans : list N;
-  iv_debug : list (cat * N * N * peer * bool)
+  iv_debug : list (cat * N * N * peer * bool);
+  iv_nodes : list (peer * N)
 }.
 Record iact := imkAct {
   ia_action : iaction; ia_result : result; ia_alive : bool; ia_expect : option oframe;
@@ -221,12 +322,13 @@ Definition ract (tbl : list name) (a : iact) : act :=
     (let v := ia_view a in
      mkView (option_map (fun cp => (nms tbl (fst cp), snd cp)) (iv_lookup v))
             (nms tbl (iv_topics v)) (nms tbl (iv_chans v))
-            (map (fun e => match e with (c, k, sb, p, b) => (mkReg c (nm tbl k) (nm tbl sb), p, b) end) (iv_debug v))).
+            (map (fun e => match e with (c, k, sb, p, b) => (mkReg c (nm tbl k) (nm tbl sb), p, b) end) (iv_debug v))
+            (map (fun e => (fst e, nm tbl (snd e))) (iv_nodes v))).
 
 Definition resolve (c : icase) : case :=
   mk (ic_by c) (nm (ic_names c) (ic_topic c)) (map (ract (ic_names c)) (ic_acts c)).
 
 Definition judge (c : case) : N :=
-  verdict (agree_acts init (c_topic c) (c_acts c)) (mon_acts (c_by c) empty_view (c_acts c)).
+  verdict (agree_acts init (c_topic c) (c_acts c)) (mon_acts (c_topic c) (c_by c) empty_view (c_acts c)).
 
 Definition judge_i (c : icase) : N := judge (resolve c).
